@@ -104,7 +104,16 @@ def main(argv=None):
     a = sub.add_parser("all")
     a.add_argument("--tier", default="quick")
     a.add_argument("--repo", default=None)
+    st = sub.add_parser("selftest")
+    st.add_argument("--only", default=None)
+    st.add_argument("--prop", action="append")
+    st.add_argument("--repo", default=None)
+    st.add_argument("--jobs", type=int, default=8)
     args = ap.parse_args(argv)
+    if args.cmd == "selftest":
+        from .selftest import selftest
+        res = selftest(args.repo, args.only, args.prop, args.jobs)
+        return 1 if any(r["status"] in ("MISSED", "FALSE-ALARM") for r in res) else 0
     if args.cmd == "check":
         return run_check(args.prop, args.tier, args.repo)
     if args.cmd == "all":
